@@ -49,7 +49,7 @@ def variants():
     v += [("currents_callable", k) for k in ("always", "late", "growing", "always_negative", "late_negative")]
     v += [("unknown_terminal", "callable")]
     v += [("epsilon", k) for k in ("scalar", "spatial", "spatial_one_site", "time_dependent")]
-    v += [("options", k) for k in ("dt_init_gt_dt_max", "terminal_psi_abs", "multiplier_low", "multiplier_high", "drag_zero", "drag_high", "step_size", "tolerance",
+    v += [("options", k) for k in ("dt_init_gt_dt_max", "terminal_psi_abs", "multiplier_low", "multiplier_high", "drag_zero", "drag_high", "step_size", "tolerance", "tolerance_zero", "step_size_negative", "multiplier_negative", "multiplier_one", "drag_negative",
                                    "solver_name", "gpu", "cupy_without_gpu")]
     v += [("empty_terminal", k) for k in ("inside", "outside")]
     v += [("seed", k) for k in ("geometry", "layer", "units", "probe_points", "name", "no_terminals", "fewer_terminals", "extra_hole", "renamed_terminal")]
@@ -197,6 +197,11 @@ def run_case(case):
             "drag_high": dict(screening_step_drag=1.0 + m),
             "step_size": dict(screening_step_size=0.0),
             "tolerance": dict(screening_tolerance=-1e-3),
+            "tolerance_zero": dict(screening_tolerance=0.0),
+            "step_size_negative": dict(screening_step_size=-0.1),
+            "multiplier_negative": dict(adaptive_time_step_multiplier=-0.25),
+            "multiplier_one": dict(adaptive_time_step_multiplier=1.0),
+            "drag_negative": dict(screening_step_drag=-0.5),
             "solver_name": dict(sparse_solver="superlu2"),
             "gpu": dict(gpu=True),
             "cupy_without_gpu": dict(sparse_solver="cupy"),
